@@ -104,8 +104,27 @@ def cases(tier, seed):
                 step = {"glyphs": glyphs, "info": info, "separate": rng.random() < 0.8}
                 if kind == "DottedCircle" and rng.random() < 0.5:
                     step["lib"] = {"public.openTypeCategories": {sorted(glyphs)[0]: "base"}}
+                if kind in ("DecomposeComponents", "ReverseContourDirection", "Transformations", "FlattenComponents", "DecomposeTransformedComponents") \
+                        and rng.random() < 0.3:
+                    # a colour font: colour-layer copies of some glyphs sit in the glyph set under "<name>.color1"
+                    from ..absfont import MS, PS
+
+                    pick = [n_ for n_ in sorted(glyphs) if rng.random() < 0.5][:3] or sorted(glyphs)[:1]
+                    layer = {}
+                    for n_ in pick:
+                        layer[n_] = {"cs": [], "comps": [{"b": "lx", "m": [MS, 0, 0, MS], "d": [rng.randint(-20, 20) * PS, 0]}], "anchors": [],
+                                     "w": glyphs[n_]["w"], "h": 0, "u": []}
+                    layer["lx"] = {"cs": [], "comps": [{"b": "ly", "m": [-MS, 0, 0, MS], "d": [200 * PS, 0]}], "anchors": [], "w": 0, "h": 0, "u": []}
+                    layer["ly"] = {"cs": [[[0, 0, "line"], [100 * PS, 0, "line"], [50 * PS, 80 * PS, "line"]]], "comps": [], "anchors": [], "w": 0, "h": 0, "u": []}
+                    step["layers"] = {"color1": layer}
+                    step["lib"] = dict(step.get("lib") or {}, **{"com.github.googlei18n.ufo2ft.colorPalettes": [[[1.0, 0.0, 0.0, 1.0]]],
+                                                                "com.github.googlei18n.ufo2ft.colorLayerMapping": [["color1", 0]]})
+                    step["explode"] = True
+                    step["separate"] = True
                 steps.append(step)
         spec = _spec(rng, kind, sorted(names))
+        if any(st.get("explode") for st in steps):
+            spec["include"] = {"kind": "all"}      # (include lists name glyphs, the exploded copies share their names)
         out.append({"cid": f"c14-{seed}-{k}", "lib": rng.choice(["ufoLib2", "defcon"]), "filter": spec, "steps": steps,
                     "interp": interp, "again": kind == "PropagateAnchors"})
     return out
